@@ -144,6 +144,12 @@ def bodyLoadIndex : String :=
     "(block (:= (v1 v2) ((call (. os Open) (call (. filepath Join) (. v0 work) \"index.json\")))) (if _ (!= v2 nil) (block (return v2)) _) (defer (call (. v1 Close))) (var (v3) index ()) (if (:= (v2) ((call (. (call (. json NewDecoder) v1) Decode) (u& v3)))) (!= v2 nil) (block (return v2)) _) (range _ v4 (. v3 Flags) (block (if _ (== v4 nil) (block (return (call (. errors New) \"malformed index: null flag\"))) _) (= ((index (. v0 flags) (. v4 Name))) (v4)))) (range _ v5 (. v3 Targets) (block (:= (v6) ((. v5 Label))) (if _ (== v6 nil) (block (return (call (. errors New) \"malformed index: target without a label\"))) _) (:= (v7 v2) ((call (. v0 loadTargetInfo) v6))) (if _ (!= v2 nil) (block (return v2)) _) (var (v8) Target ()) (if _ (call IsSource v6) (block (:= (v9) ((slice (call (. label Split) (. v6",
     " Package)) 1 _ _))) (:= (v10) ((call (. filepath Join) (. v0 root) (call (. filepath Join) v9 ...) (. v6 Name)))) (= (v8) ((u& (lit sourceFile (kv proj v0) (kv label v6) (kv path v10)))))) (block (:= (v11) ((call make (array _ string) 0 (call len (. v7 Dependencies))))) (range v12 _ (. v7 Dependencies) (block (= (v11) ((call append v11 v12))))) (call (. sort Strings) v11) (= (v8) ((u& (lit indexTarget (kv proj v0) (kv label v6) (kv doc (. v7 Doc)) (kv deps v11) (kv depData (. v7 Dependencies)) (kv data (. v7 Data)) (kv runs (. v7 Runs)))))))) (= ((index (. v0 targets) (call (. v6 String)))) ((u& (lit runTarget (kv target v8))))))) (return nil))"]
 
+def bodyUnescapeLabel : String :=
+  "(block (if _ (u! (call (. strings ContainsRune) v0 (. utf8 RuneError))) (block (return v0)) _) (var (v1) _ (\"\\uFFFD\")) (var (v2) (. strings Builder) ()) (for (:= (v3) (0)) (< v3 (call len v0)) _ (block (if _ (&& (call (. strings HasPrefix) (slice v0 v3 _ _) v1) (<= (+ (+ v3 (call len v1)) 2) (call len v0))) (block (:= (v4) ((slice v0 (+ v3 (call len v1)) (+ (+ v3 (call len v1)) 2) _))) (if _ (== v4 \"--\") (block (call (. v2 WriteString) v1) (+= (v3) ((+ (call len v1) 2))) (continue)) _) (if (:= (v5 v6) ((call (. strconv ParseUint) v4 16 8))) (== v6 nil) (block (call (. v2 WriteByte) (call byte v5)) (+= (v3) ((+ (call len v1) 2))) (continue)) _)) _) (call (. v2 WriteByte) (index v0 v3)) (++ v3))) (return (call (. v2 String))))"
+
+def bodyDepStampsUnmarshal : String :=
+  "(block (var (v2) (map string string) ()) (if (:= (v3) ((call (. json Unmarshal) v1 (u& v2)))) (!= v3 nil) (block (return v3)) _) (if _ (== v2 nil) (block (= ((* v0)) (nil)) (return nil)) _) (= ((* v0)) ((call make depStamps (call len v2)))) (range v4 v5 v2 (block (= ((index (* v0) (call unescapeLabel v4))) (v5)))) (return nil))"
+
 def bodyWriterWrite : String :=
   "(block (if (:= (_ v2) ((call (. (. v0 w) Write) v1))) (!= v2 nil) (block (call panic (call failure v2))) _) (return (call len v1) nil))"
 
